@@ -200,6 +200,7 @@ UNode(x, k, n) ==
   CASE k = "skip_last" -> [base EXCEPT !.n = PA(x)]
     [] k = "last" -> [base EXCEPT !.v = NoneV]
     [] k \in {"duc", "dukc", "pairwise"} -> [base EXCEPT !.v2 = NoneV]
+    [] k = "collect" -> [base EXCEPT !.q = PL(x)]        \* collect_into(collection): the items are added to what it holds
     [] OTHER -> base
 
 (* chain of nodes (outermost first) for the derived operators; each element *)
